@@ -296,9 +296,12 @@ def _verify(res, crate, expected, resolve, pid, input_files):
         res["reason"] = "cargo kani exceeded %d s (killed); log %s" % (TIMEOUT_S, log)
         return
     results, summary = parse_kani(out)
+    pre = ""
+    if res["failures"]:
+        pre = "(generator had already found %d text-level problem(s): %s) " % (len(res["failures"]), "; ".join("%s %s" % (f["obligation"], f["kind"]) for f in res["failures"][:5]))
     if not results:
         tail = "\n".join(l for l in out.splitlines() if l.startswith("error") or "panicked" in l or "internal error" in l)[-1500:]
-        res["reason"] = "cargo kani ran no harness (exit %s): build or tool failure; log %s\n%s" % (rc, log, tail or out[-1500:])
+        res["reason"] = pre + "cargo kani ran no harness (exit %s): build or tool failure; log %s\n%s" % (rc, log, tail or out[-1500:])
         return
     res["solver_ms"] = round(1000.0 * sum(r["time_s"] or 0.0 for r in results.values()), 1)
     if summary is None or summary[2] != len(results) or summary[1] != sum(1 for r in results.values() if not r["ok"]):
